@@ -82,6 +82,7 @@ struct ctl_server
     // server is waiting for the next one; `kick` = close that connection now (the harness sets it when the client is blocked
     // reading a reply the script will never send: the model's control stream ends there, the real server hangs up there)
     std::atomic<bool> idle{false}, kick{false};
+    std::atomic<int> open_conns{0};       // control connections accepted and not yet closed by the server
     ~ctl_server() { shutdown(); }
 
     void start(bool ipv6, int ver, bool reqreuse)
@@ -141,7 +142,9 @@ struct ctl_server
             int fd = ::accept(lfd, nullptr, nullptr);
             if (fd < 0) continue;
             int one = 1; setsockopt(fd, IPPROTO_TCP, TCP_NODELAY, &one, sizeof one);
+            open_conns++;
             handle(fd);
+            open_conns--;
         }
     }
 
@@ -170,6 +173,7 @@ struct ctl_server
                 { std::lock_guard<std::mutex> l(mu); events.push_back(std::string("srv-hs:") + (r == 1 ? "1" : "0")); }
                 if (r != 1) return false;
             }
+            if (g.reset_after) { linger lg{1, 0}; setsockopt(fd, SOL_SOCKET, SO_LINGER, &lg, sizeof lg); }
             if (g.close_after) return false;
             return true;
         };
